@@ -106,8 +106,8 @@ func c02CheckValue(m *MIME, err error) (nontrivial bool, labels []string, e erro
 	last := m
 	for p := m.Parent(); p != nil; p = p.Parent() {
 		steps++
-		if steps > 16 {
-			return true, labels, fmt.Errorf("Parent() chain longer than 16: %s", vfChainStr(m))
+		if steps > 64 {
+			return true, labels, fmt.Errorf("Parent() chain longer than 64: %s", vfChainStr(m))
 		}
 		pt, pp, e := mime.ParseMediaType(p.String())
 		if e != nil {
@@ -231,6 +231,9 @@ var _ io.Reader = (*c02FailReader)(nil)
 
 // c02Ext: the same invariants on trees enlarged by Extend (results deeper than any built-in path)
 type c02Ext struct {
+	// OnResult: before the final detection, Extend is called on the value returned by a first
+	// detection of the same input (with a predicate accepting everything)
+	OnResult bool    `json:"extend_on_result,omitempty"`
 	Exts  []vfExt `json:"exts"`
 	Doc   vfB     `json:"doc"`
 	Limit uint32  `json:"limit"`
@@ -247,12 +250,17 @@ func c02ExtCheck(c c02Ext) vfResult {
 			return vfResult{Skip: "extend-parent-missing"}
 		}
 	}
+	if c.OnResult {
+		m0 := vfDetectAt(c.Doc, c.Limit)
+		m0.Extend(func([]byte, uint32) bool { return true }, "application/x-verif-onresult", ".onr")
+	}
 	m := vfDetectAt(c.Doc, c.Limit)
 	// registered names now include the extensions (bare type of each registered string)
 	c02Registered = map[string]bool{}
 	for _, n := range root.flatten() {
 		c02Registered[strings.ToLower(vfBare(n.mime))] = true
 	}
+	c02Registered["application/x-verif-onresult"] = true // only reachable if Extend on a result leaked into the tree
 	depth := len(vfChain(m)) - 1
 	_, labels, e := c02CheckValue(m, nil)
 	r.Labels = append(labels, "extended-tree")
@@ -267,11 +275,22 @@ func c02ExtCheck(c c02Ext) vfResult {
 func c02ExtGen(t *rapid.T) c02Ext {
 	var c c02Ext
 	parent := rapid.SampledFrom([]string{"", "text/plain", "application/rss+xml", "image/vnd.mozilla.apng", "application/vnd.oasis.opendocument.text-template", "application/geo+json", "application/zip", "text/html"}).Draw(t, "chainroot")
-	for i, n := 0, rapid.IntRange(1, 6).Draw(t, "chain"); i < n; i++ {
+	depth := rapid.IntRange(1, 6).Draw(t, "chain")
+	if rapid.IntRange(0, 5).Draw(t, "deepchain") == 0 {
+		depth = rapid.IntRange(7, 26).Draw(t, "chain2")
+	}
+	for i := 0; i < depth; i++ {
 		e := vfExt{Parent: parent, Mime: fmt.Sprintf("application/x-verif-%d", i), Ext: fmt.Sprintf(".vf%d", i), Pred: vfPred{Kind: "always"}}
+		switch rapid.IntRange(0, 11).Draw(t, "collide") {
+		case 0: // an alias (not the name) equal to one of the charset-carrying types
+			e.Aliases = []string{rapid.SampledFrom([]string{"text/plain", "text/html", "text/xml"}).Draw(t, "calias")}
+		case 1:
+			e.Aliases = []string{"TEXT/PLAIN", "text/html; charset=utf-8"}
+		}
 		c.Exts = append(c.Exts, e)
 		parent = e.Mime
 	}
+	c.OnResult = rapid.IntRange(0, 3).Draw(t, "onresult") == 0
 	switch rapid.IntRange(0, 3).Draw(t, "doc") {
 	case 0:
 		c.Doc = vfB(c02Gen(t).Doc)
